@@ -2372,11 +2372,18 @@ func (db *DB) Drop(ctx context.Context) (err error) {
 	}
 	defer func() { _ = ltxFile.Close() }()
 
+	// A database that was created and never written has no page size of its
+	// own but the header of the file still needs a valid one.
+	pageSize := db.pageSize
+	if pageSize == 0 {
+		pageSize = 4096
+	}
+
 	enc := ltx.NewEncoder(ltxFile)
 	if err := enc.EncodeHeader(ltx.Header{
 		Version:          1,
 		Flags:            db.store.ltxHeaderFlags(),
-		PageSize:         db.pageSize,
+		PageSize:         pageSize,
 		Commit:           commit,
 		MinTXID:          txID,
 		MaxTXID:          txID,
